@@ -2,7 +2,7 @@
 C09 — ground truth, `describe_state()` and the specification encoder.
 
 * `Truth`     : what the simulator OBJECTS hold (lists of objects with their attributes; deleted items kept apart; the local
-                session as an optional user name; NMNE counters with the interface's capture switch; …).
+                session as an optional user name; NMNE counters with the interface's switch; …).
 * `describe`  : model of the `describe_state()` methods that turn the objects into the dictionary the observations index.
 * `Obs.spec`  : the documented encoding, written directly over the objects ("find the component by name; absent or node not
                 ON → zeros; enumerations by value; visible health iff requires_scan; counts by threshold band; …"),
@@ -48,7 +48,7 @@ structure NicT where
   speed : Nat
   icmp : Option Dir
   ports : List (String × List (Nat × Dir))
-  /-- `nmne_config.capture_nmne` as seen by this interface -/
+  /-- `nmne_settings.capture_nmne` of this interface: the process-wide override if assigned, else its own network's settings -/
   capturing : Bool
   nmneIn : Nat
   nmneOut : Nat
@@ -210,8 +210,9 @@ def NicT.amount (n : NicT) (proto : String) (port : Option Nat) (inbound : Bool)
       | some d => pick d
 
 /-- NIC: status 1 enabled / 2 disabled; traffic band `min(⌊9·amount/speed⌋+1, 10)` (0 for none); NMNE = threshold band of the
-events counted since the previous observation of this interface (zeros when nothing is captured). -/
-def NicObs.spec (capture : Bool) (o : NicObs) (t : Truth) : Val :=
+events counted since the previous observation of this interface when the interface's OWN network settings capture them (its
+network's `nmne_config`, or the process-wide override), zeros when they do not. -/
+def NicObs.spec (o : NicObs) (t : Truth) : Val :=
   match o.wh with
   | none => o.default
   | some (h, i) =>
@@ -220,11 +221,9 @@ def NicObs.spec (capture : Bool) (o : NicObs) (t : Truth) : Val :=
     | some n =>
       .dict ((.s "nic_status", .int (if n.enabled then 1 else 2)) ::
         (optEntry o.includeNmne (.s "NMNE")
-           (if capture then
-              (if n.capturing then
-                 .dict (dirDict (.int (categorise o.thr ((n.nmneIn : Int) - o.lastIn)))
-                                (.int (categorise o.thr ((n.nmneOut : Int) - o.lastOut))))
-               else .raised)
+           (if n.capturing then
+              .dict (dirDict (.int (categorise o.thr ((n.nmneIn : Int) - o.lastIn)))
+                             (.int (categorise o.thr ((n.nmneOut : Int) - o.lastOut))))
             else .dict (dirDict (.int 0) (.int 0))) ++
          optEntry (!o.traffic.isEmpty) (.s "TRAFFIC")
            (.dict (trafficEntries Val.dict o.traffic
@@ -283,7 +282,7 @@ def specUsers (n : NodeT) : Val :=
     .dict [(.s "local_login", .int (if n.localUser.isSome then 1 else 0)), (.s "remote_sessions", .int (min 3 n.remoteSessions))]
   else .raised
 
-def HostObs.spec (capture : Bool) (o : HostObs) (t : Truth) : Val :=
+def HostObs.spec (o : HostObs) (t : Truth) : Val :=
   match o.wh with
   | none => o.default
   | some h =>
@@ -295,7 +294,7 @@ def HostObs.spec (capture : Bool) (o : HostObs) (t : Truth) : Val :=
           (optEntry (!o.services.isEmpty) (.s "SERVICES") (.dict (enumFrom 1 (o.services.map (·.spec t)))) ++
            optEntry (!o.apps.isEmpty) (.s "APPLICATIONS") (.dict (enumFrom 1 (o.apps.map (·.spec t)))) ++
            optEntry (!o.folders.isEmpty) (.s "FOLDERS") (.dict (enumFrom 1 (o.folders.map (·.spec t)))) ++
-           optEntry (!o.nics.isEmpty) (.s "NICS") (.dict (enumFrom 1 (o.nics.map (NicObs.spec capture · t)))) ++
+           optEntry (!o.nics.isEmpty) (.s "NICS") (.dict (enumFrom 1 (o.nics.map (NicObs.spec · t)))) ++
            optEntry o.numAccess (.s "num_file_creations") (.int (min n.numCreations 3)) ++
            optEntry o.numAccess (.s "num_file_deletions") (.int (min n.numDeletions 3)) ++
            optEntry o.users (.s "users") (specUsers n)))
@@ -324,30 +323,30 @@ def FirewallObs.spec (o : FirewallObs) (t : Truth) : Val :=
              optEntry o.users (.s "users") (specUsers n))
     else o.default
 
-def NodesObs.spec (capture : Bool) (o : NodesObs) (t : Truth) : Val :=
-  .dict (enumTag "HOST" 0 (o.hosts.map (HostObs.spec capture · t)) ++ enumTag "ROUTER" 0 (o.routers.map (·.spec t)) ++
+def NodesObs.spec (o : NodesObs) (t : Truth) : Val :=
+  .dict (enumTag "HOST" 0 (o.hosts.map (HostObs.spec · t)) ++ enumTag "ROUTER" 0 (o.routers.map (·.spec t)) ++
          enumTag "FIREWALL" 0 (o.firewalls.map (·.spec t)))
 
 mutual
-def Obs.spec (capture : Bool) (t : Truth) : Obs → Val
+def Obs.spec (t : Truth) : Obs → Val
   | .null => .int 0
   | .service o => o.spec t
   | .app o => o.spec t
   | .file o => o.spec t
   | .folder o => o.spec t
-  | .nic o => o.spec capture t
+  | .nic o => o.spec t
   | .port o => o.spec t
   | .link o => o.spec t
   | .links os => .dict (enumFrom 1 (os.map (·.spec t)))
   | .acl o => o.spec t
-  | .host o => o.spec capture t
+  | .host o => o.spec t
   | .router o => o.spec t
   | .firewall o => o.spec t
-  | .nodes o => o.spec capture t
-  | .nested cs => .dict (Obs.specL capture t cs)
-def Obs.specL (capture : Bool) (t : Truth) : List (String × Obs) → List (Key × Val)
+  | .nodes o => o.spec t
+  | .nested cs => .dict (Obs.specL t cs)
+def Obs.specL (t : Truth) : List (String × Obs) → List (Key × Val)
   | [] => []
-  | c :: cs => (Key.s c.1, c.2.spec capture t) :: Obs.specL capture t cs
+  | c :: cs => (Key.s c.1, c.2.spec t) :: Obs.specL t cs
 end
 
 end Primaite.Obs
